@@ -32,7 +32,7 @@ PROPS = {
                 "(nested maps, arrays as sets, all scalar types, strings around the term-length limit, property variables); after every operation "
                 "GetFact on every id and a battery of patterns are compared with the reference model on both state implementations. "
                 "A case is non-trivial when a search returned at least one fact or an operation changed the model state; distinct = distinct "
-                "(observation or operation kind, canonical model state) pairs.",
+                "(observation or operation kind, canonical model state) pairs. One run in five rewrites ids with values that differ from the stored one only inside an array (order, one element replaced at equal length) and searches with a variable bound to the whole array and with element patterns; GetFact of a plain fact must return the value last written, array order included.",
         "components": {"real": REAL, "stub": STUB_COMMON},
         "assumptions": ["core.Matches is the matching primitive of the reference model (matching itself is C05, not claimed)",
                         "go1.26.8 runtime and testing/synctest", "single client: no concurrent requests in this world (C12 covers those)"],
@@ -45,7 +45,7 @@ PROPS = {
                 "(child, parent, grandparent) and a 4-id rule space per location; `when` patterns from the JSON fragment including empty map, "
                 "empty array, null, property variables; after every operation a battery of events derived from the stored patterns (instantiated, "
                 "perturbed, unrelated) is processed in every location and the (rule id, bindings) sets of FindRules.Children are compared with the "
-                "reference model. Non-trivial: an event dispatched at least one rule; distinct = distinct (event, canonical model state) pairs.",
+                "reference model. Non-trivial: an event dispatched at least one rule; distinct = distinct (event, canonical model state) pairs. One run in five is a look-alike run: patterns that match one event in several ways (anonymous and named property variables over a map, array variables) with events whose values differ only in type (1 / \"1\", true / \"true\", null / \"<nil>\") or not at all; a rule is evaluated once per way of matching, with exactly those bindings (multisets are compared).",
         "components": {"real": REAL, "stub": STUB_COMMON + ["core.SimpleLocationProvider wiring of parents"]},
         "assumptions": ["core.Matches is the matching primitive of the reference model", "rule ids are disjoint between a location and its ancestors (the engine reports equal ids as an error; not judged)",
                         "actions are the constant 1 (C04 judges executions)"],
@@ -106,7 +106,7 @@ PROPS = {
                 "with and without a parent location owning a rule; after every step each location processes the events matching every rule's current "
                 "and former pattern. Judged: dispatched (rule, bindings) sets, ProcessEvent().Values against the rules' constant action values, "
                 "RuleEnabled, GetFact of the disabled flag, storage dump; in a disabled location every operation must report an error. "
-                "Non-trivial: an event fired at least one rule; distinct = distinct (event or operation, canonical model state) pairs.",
+                "Non-trivial: an event fired at least one rule; distinct = distinct (event or operation, canonical model state) pairs. The disabled flag is also written through the facts API as the property fact it is ({id: rule, !disabled: bool}, which carries no deleteWith); it must go with the rule all the same.",
         "components": {"real": REAL, "stub": STUB_COMMON + ["core.SimpleLocationProvider wiring of the parent"]},
         "assumptions": ["core.Matches as matching primitive", "RuleEnabled for an id that is not a rule is not judged"],
     },
@@ -119,7 +119,7 @@ PROPS = {
                 "every operation EVERY location is observed (GetFact on every id, own and inherited search battery, dispatch battery with action values) and "
                 "compared with the model in which only the addressed location changed. A loop must give an error (a stack overflow kills the worker and is "
                 "reported with the journalled plan). Non-trivial: an inherited search or dispatch returned something from an ancestor; distinct = distinct "
-                "(observation, canonical model state) pairs.",
+                "(observation, canonical model state) pairs. One run in six keeps the locations unrelated (no parents) and gives every location its own, different rule under one and the same id.",
         "components": {"real": REAL, "stub": STUB_COMMON + ["core.SimpleLocationProvider (the System-level provider is exercised by C17/C11 worlds)"]},
         "assumptions": ["diamond-shaped ancestries are not generated (inherited results would appear once per path by the documented merge)",
                         "rule ids are distinct along an ancestor chain"],
@@ -133,7 +133,7 @@ PROPS = {
                 "disabled} x caller {no key, wrong key, right key} x {indexed, linear}, enumerated completely in both tiers (576 cells); world histories: seeded "
                 "histories in which protection changes between operations and reloads occur. The model decides allow/refuse; after every operation the live "
                 "state (with the right keys) and the storage dump must equal the model, so a refused operation that changed anything is caught. "
-                "Non-trivial: the model refused the operation; distinct = distinct (operation, canonical model state) pairs.",
+                "Non-trivial: the model refused the operation; distinct = distinct (operation, canonical model state) pairs. The matrix includes AddFact of property facts (the parent list, a rule's disabled flag, the location's enabled flag and write key, a custom property): writes like any other.",
         "exhaustive_claim": False,
         "components": {"real": REAL, "stub": STUB_COMMON},
         "assumptions": ["keys are carried in core.Context.ReadKey/WriteKey as the service layer does"],
@@ -197,7 +197,7 @@ PROPS = {
     "C13": {
         "level": "exploration",
         "build": "plain",
-        "tiers": tiers(11000, 90, 120000, 1200),
+        "tiers": tiers(22200, 90, 135000, 1200),
         "rule": "a location preloaded with a canary fact and a canary rule; hostile inputs submitted as fact, rule, pattern (SearchFacts, SearchRules), event, "
                 "embedded rule (evaluate!) and query. World matrix: every (entry point, reserved key, wrong-typed value) triple on both states - 7 entry points x "
                 "25 reserved keys (rule, when, pattern, condition, action(s), schedule, expires, ttl, deleteWith, id, !p, trigger!, evaluate!, _id, locations, code, "
@@ -206,7 +206,7 @@ PROPS = {
                 "enumerated completely in both tiers. World mutations: 1-3 stacked mutations incl. containers nested 10-5000 deep, 100 kB strings, dropped required "
                 "parts. After each input: a panic reaching the caller, a worker death (stack overflow), a real-time hang (lock left held) or a failing canary "
                 "operation (AddFact, GetFact, SearchFacts, ProcessEvent of the canary rule exactly once) is a violation. Non-trivial: every input; distinct = "
-                "distinct (entry point, input) pairs.",
+                "distinct (entry point, input) pairs. World service (complete in both tiers): through sys.System, service.ProcessRequest and the HTTP handler - one parameter (fact, id, location, rule, pattern, inherited, event, query; the request list of a batch) of an otherwise valid request is replaced by each of 50 values (wrong types, empty and odd strings, text that is almost JSON or YAML, 300-deep nesting, batch items with a non-string uri) and sent in each of seven encodings (generic map, JSON body, /api/json envelope, YAML, batch, query string, form) on both states; a panic is a violation, and canary requests through the same service (add, get, search, event, remove) must work afterwards.",
         "exhaustive_claim": False,
         "components": {"real": REAL, "stub": STUB_COMMON + ["entry through core.Location (System and HTTP entry are exercised by C18/C17 worlds)"]},
         "assumptions": ["well-formed JSON only (the statement's quantifier)"],
@@ -214,21 +214,21 @@ PROPS = {
     "C17": {
         "level": "exploration",
         "build": "instr",
-        "tiers": tiers(1500, 60, 40000, 900, race=(600, 90, 20000, 900, ["firstload"])),
+        "tiers": tiers(2000, 60, 50000, 900, race=(600, 90, 20000, 900, ["firstload"]), prace=(600, 60, 20000, 600, ["overlap"])),
         "rule": "world twins: one request history (3-4 created locations plus a never-created one, 20-40 requests - AddFact with ttl/deleteWith, RemFact, GetFact, "
                 "SearchFacts own/inherited, AddRule with and without condition, RemRule, EnableRule, ProcessEvent, SetParents, Clear - and sleeps of 0.5 ms to 4 s) "
                 "executed in seven engines at once: bare core.Locations (no cache) and sys.System with cache TTL in {never, 1 ms, forever} x CheckExistence in "
                 "{off, on}, each over its own SimStorage and persistent SimCron; every request must return the same normalised result in all of them; with "
                 "existence checking a request to the never-created location must fail, leave no storage record and no cache entry. World firstload "
                 "(instrumented build): N concurrent first requests for one location under scheduler control cause exactly one Storage.Load. "
-                "Non-trivial: every request; distinct = distinct (operation, result) pairs. Race phase: the same plans' worlds are executed again in a binary built with -race whose scheduler hands the token over through pipes with raw system calls (no happens-before edge from the scheduler): execution stays serial and tape-driven, and every pair of conflicting accesses that rulio's own synchronisation does not order in the simulated schedule is reported as a data-race violation (replayable, minimised).",
+                "Non-trivial: every request; distinct = distinct (operation, result) pairs. Race phase: the same plans' worlds are executed again in a binary built with -race whose scheduler hands the token over through pipes with raw system calls (no happens-before edge from the scheduler): execution stays serial and tape-driven, and every pair of conflicting accesses that rulio's own synchronisation does not order in the simulated schedule is reported as a data-race violation (replayable, minimised). World twins also runs System twins with TTL 1 s, and one history in three writes the location's own cacheTTL property (0, 1, 3, 1500, 100000 ms, ill-typed, removed), which overrides the system's TTL from the next load on. World overlap (plain build, fake clock): 2-6 clients start one request each at their own instants of simulated time against one location of a System with TTL in {never, 1, 200, 500, 2000 ms, forever}; an event's rule sleeps 0-2.5 s and then writes (a request that outlives the cache entry it came from), other clients add, search and get; writes use ids of their own. Judged after the last request returned and again after the entry has run out: every acknowledged write is found by GetFact and SearchFacts.",
         "components": {"real": ["sys.System incl. CachedLocations", "core", "cron.AddHooks"], "stub": STUB_COMMON + ["SimCron (persistent Cronner)"]},
         "assumptions": ["generated ids are compared as 'generated'", "the created-marker property is not searched for"],
     },
     "C18": {
         "level": "exploration",
         "build": "plain",
-        "tiers": tiers(1200, 60, 40000, 900),
+        "tiers": tiers(2400, 60, 60000, 900),
         "rule": "a logical request history (facts/add get rem search, rules/add rem list enable disable, events/ingest, facts/query, admin/clear, plus requests that must fail: "
                 "missing or ill-typed parameters, unknown URI, failing operation) with strings that need URL/JSON/YAML escaping, rendered as query string, form body, "
                 "JSON body, /api/json envelope, YAML body, /api/yaml envelope, inside /api/sys/util/batch and as the generic request map, with and without /api and "
@@ -236,7 +236,7 @@ PROPS = {
                 "sys.System receives the direct calls. Judged: error-vs-success equals the direct call (failing requests must answer 400, never 200), "
                 "payloads (ids, facts, search bindings, rule lists, event values, query bindings) equal the direct result, and the final facts and rules of every "
                 "engine equal the twin's. Non-trivial: every request; distinct = distinct (operation, arguments) pairs. Apart from body chunking there is no "
-                "fault or schedule dimension in this property.",
+                "fault or schedule dimension in this property. World batches: the history, with the composite service operations take (search, then remove what was found) and replace (take, then add) sprinkled in and with failing requests among them, is cut into batches of 1-5 requests sent to /api/sys/util/batch over HTTP or as the generic request map; a twin System receives the corresponding direct calls; each item must have the outcome and payload of the same request alone, the response must be a JSON list with one result per request, and the final facts and rules must equal the twin's.",
         "components": {"real": ["service.HTTPService.ServeHTTP, service.GetHTTPRequest, service.Service.ProcessRequest", "sys.System", "core"], "stub": STUB_COMMON + ["net/http server loop (handlers are called directly with httptest recorders)"]},
         "assumptions": ["generated ids are compared as 'generated'"],
     },
@@ -301,7 +301,7 @@ PROPS = {
                 "concurrent simulated clients; every action goroutine is a simulator task, ordered and pre-empted (0-3 PCT points, inside AddFact too) by the "
                 "tape; map iteration order from the tape. Judged against the reference (when-match x condition x actions): the multiset of action nodes "
                 "(rule, bindings, action, disposition, value), the `values` list, and the number of stored execution facts; failing actions are non-complete on "
-                "their own node and change nothing else. Non-trivial: at least one action executed; distinct as in distinct_measure. Race phase: the same plans' worlds are executed again in a binary built with -race whose scheduler hands the token over through pipes with raw system calls (no happens-before edge from the scheduler): execution stays serial and tape-driven, and every pair of conflicting accesses that rulio's own synchronisation does not order in the simulated schedule is reported as a data-race violation (replayable, minimised).",
+                "their own node and change nothing else. Non-trivial: at least one action executed; distinct as in distinct_measure. Race phase: the same plans' worlds are executed again in a binary built with -race whose scheduler hands the token over through pipes with raw system calls (no happens-before edge from the scheduler): execution stays serial and tape-driven, and every pair of conflicting accesses that rulio's own synchronisation does not order in the simulated schedule is reported as a data-race violation (replayable, minimised). One action in five (kind scribble) reports like ok and then writes to its own variables (event.scribble, x, n): every execution has its own event and bindings, so no other execution may see the writes.",
         "components": {"real": REAL + ["WorkWalk and its action goroutines as simulator tasks", "otto"], "stub": ["simrt token scheduler (instrumented build)", "SimStorage wrapper with yield points"]},
         "assumptions": ["core.Matches as matching primitive", "JavaScript time-outs off (the watchdog's select is outside scheduler control)"],
     },
